@@ -284,8 +284,10 @@ def judgeHexDecode (data : Bytes) (resp : String) : Verdict :=
     let ok := digits.length % 2 == 0 && digits.all fun c =>
       c.isDigit || ('a' ≤ c && c ≤ 'f') || ('A' ≤ c && c ≤ 'F')
     if ok then
-      let bytes := (List.range (digits.length / 2)).map fun i =>
-        UInt8.ofNat ((hexNat? ((digits.drop (2 * i)).take 2).toString).getD 0)
+      let rec pairs : List Char → List UInt8
+        | a :: b :: rest => UInt8.ofNat ((hexNat? (String.ofList [a, b])).getD 0) :: pairs rest
+        | _ => []
+      let bytes := pairs digits.toList
       expect (resp == "ok " ++ hx bytes) "layout variants must decode to the bytes the digits spell"
     else expect (resp == "err") "odd digit count or non-hex character must be an error with no output"
 
